@@ -62,6 +62,8 @@ pub trait ConnectionState {
     /// set the connection error and wake the connection
     fn set_conn_error_and_wake<T: Into<ErrorOrigin>>(&self, error: T) -> ErrorOrigin {
         let err = self.set_conn_error(error.into());
+        #[cfg(hyperium_h3_verif)]
+        crate::verif_hooks::preempt("stream:between_error_store_and_wake");
         self.waker().wake();
         err
     }
